@@ -46,18 +46,20 @@ InKinds  == {"plain", "ctrlc", "pathnon", "pathex"}
 Hows     == {"success", "fail", "cancel", "refused"}
 
 VARIABLES opts,
-          transferPtr, hpc, hhow, stopReq, prompt,
+          transferPtr, hpc, stopReq, prompt,
           zs,
           drag, dragging, interrupting, skipCmd,
-          logging, oscAcc,
+          logging,
           pcOut, curOut, pcIn, curIn,
           nOut, nIn, nTrig, nZ, nDrag,
           lastOut, lastIn, history,
           childExit, wrapExit, lastWords
 
-hvars == <<transferPtr, hpc, hhow, stopReq, prompt>>
+(* `history` holds the outcome of the handler that exited last ("none" before the first): the   *)
+(* sequences of outcomes are the paths of the state graph, not part of the state.              *)
+hvars == <<transferPtr, hpc, stopReq, prompt>>
 dvars == <<drag, dragging, interrupting, skipCmd>>
-svars == <<logging, oscAcc>>
+svars == <<logging>>
 ovars == <<pcOut, curOut, nOut, lastOut>>
 ivars == <<pcIn, curIn, nIn, lastIn>>
 cvars == <<nTrig, nZ, nDrag>>
@@ -67,7 +69,7 @@ vars == <<opts, hvars, zs, dvars, svars, ovars, ivars, cvars, history, mvars>>
 Img(pre, body, post) == [pre |-> pre, body |-> body, post |-> post]
 NoImg == Img(FALSE, "none", FALSE)
 NoChunk == [k |-> "none", id |-> 0]
-NoEntry == [id |-> 0, k |-> "none", img |-> NoImg, idle |-> FALSE, exp |-> NoImg]
+NoEntry == [id |-> 0, img |-> NoImg, ok |-> TRUE]
 
 -----------------------------------------------------------------------------
 (* Sessions: the property's antecedent.                                                      *)
@@ -91,25 +93,25 @@ ExpOut(k) == Img(zs = "cleaned",
 -----------------------------------------------------------------------------
 Init ==
     /\ opts \in OptSets
-    /\ transferPtr = NULL /\ hpc = "none" /\ hhow = "none" /\ stopReq = FALSE /\ prompt = "none"
+    /\ transferPtr = NULL /\ hpc = "none" /\ stopReq = FALSE /\ prompt = "none"
     /\ zs = "none"
     /\ drag = "idle" /\ dragging = FALSE /\ interrupting = FALSE /\ skipCmd = FALSE
-    /\ logging = FALSE /\ oscAcc = FALSE
+    /\ logging = FALSE
     /\ pcOut = "read" /\ curOut = NoChunk /\ pcIn = "read" /\ curIn = NoChunk
     /\ nOut = 0 /\ nIn = 0 /\ nTrig = 0 /\ nZ = 0 /\ nDrag = 0
-    /\ lastOut = NoEntry /\ lastIn = NoEntry /\ history = <<>>
+    /\ lastOut = NoEntry /\ lastIn = NoEntry /\ history = "none"
     /\ childExit = NoExit /\ wrapExit = NoExit /\ lastWords = TRUE
 
 (* a fresh filter with option set o (used by the trace spec to start the next recorded run) *)
 Reset(o) ==
     /\ opts' = o
-    /\ transferPtr' = NULL /\ hpc' = "none" /\ hhow' = "none" /\ stopReq' = FALSE /\ prompt' = "none"
+    /\ transferPtr' = NULL /\ hpc' = "none" /\ stopReq' = FALSE /\ prompt' = "none"
     /\ zs' = "none"
     /\ drag' = "idle" /\ dragging' = FALSE /\ interrupting' = FALSE /\ skipCmd' = FALSE
-    /\ logging' = FALSE /\ oscAcc' = FALSE
+    /\ logging' = FALSE
     /\ pcOut' = "read" /\ curOut' = NoChunk /\ pcIn' = "read" /\ curIn' = NoChunk
     /\ nOut' = 0 /\ nIn' = 0 /\ nTrig' = 0 /\ nZ' = 0 /\ nDrag' = 0
-    /\ lastOut' = NoEntry /\ lastIn' = NoEntry /\ history' = <<>>
+    /\ lastOut' = NoEntry /\ lastIn' = NoEntry /\ history' = "none"
     /\ childExit' = NoExit /\ wrapExit' = NoExit /\ lastWords' = TRUE
 
 -----------------------------------------------------------------------------
@@ -117,11 +119,13 @@ Reset(o) ==
 
 OutRead(c) ==
     /\ pcOut = "read"
-    /\ pcOut' = "dispatch" /\ curOut' = c /\ nOut' = nOut + 1
+    /\ pcOut' = "dispatch" /\ curOut' = c
     /\ nTrig' = IF c.k = "trig" THEN nTrig + 1 ELSE nTrig
+    /\ nOut' = IF c.k = "trig" \/ (c.k = "zmhdr" /\ opts.zmodem) THEN nOut ELSE nOut + 1
     /\ UNCHANGED <<opts, hvars, zs, dvars, svars, lastOut, ivars, nZ, nDrag, history, mvars>>
 
-OutEntry(img, exp) == [id |-> curOut.id, k |-> curOut.k, img |-> img, idle |-> OutSessionIdle, exp |-> exp]
+(* the entry of a finished turn: ok = (no session active => the image is the one demanded) *)
+OutEntry(img, exp) == [id |-> curOut.id, img |-> img, ok |-> (OutSessionIdle => img = exp)]
 
 (* `if transfer := filter.transfer.Load(); transfer != nil { transfer.addReceivedData(buf) }` *)
 OutToTransfer ==
@@ -151,8 +155,8 @@ OutForward ==
        /\ logging' = IF sw THEN ~logging ELSE logging
        /\ IF swallowedByZ
           THEN /\ lastOut' = OutEntry(NoImg, exp)
-               /\ UNCHANGED <<zs, oscAcc, hpc, skipCmd, nZ>>
-          ELSE /\ (IF opts.osc52 /\ k = "osc52" THEN oscAcc' \in BOOLEAN ELSE oscAcc' = oscAcc)
+               /\ UNCHANGED <<zs, hpc, skipCmd, nZ>>
+          ELSE (* detectOSC52 only looks (clipboard); it never changes what is forwarded *)
                /\ IF k = "trig"
                   THEN (* detector fires: shown locally, `go filter.handleTrzsz()` *)
                        /\ lastOut' = OutEntry(Img(pre, "other", FALSE), exp)
@@ -172,22 +176,27 @@ OutForward ==
                                /\ lastOut' = OutEntry(Img(pre, IF sw THEN "other" ELSE "same", TRUE), exp)
                           ELSE /\ zs' = zs1 /\ nZ' = nZ
                                /\ lastOut' = OutEntry(Img(pre, IF sw THEN "other" ELSE "same", FALSE), exp)
-    /\ UNCHANGED <<opts, transferPtr, hhow, stopReq, prompt, drag, dragging, interrupting,
+    /\ UNCHANGED <<opts, transferPtr, stopReq, prompt, drag, dragging, interrupting,
                    curOut, nOut, ivars, nTrig, nDrag, history, mvars>>
 
-OutLoop ==
+OutLoop ==       \* the pump calls Read again: the turn is over
     /\ pcOut = "done" /\ pcOut' = "read"
-    /\ UNCHANGED <<opts, hvars, zs, dvars, svars, curOut, nOut, lastOut, ivars, cvars, history, mvars>>
+    /\ lastOut' = NoEntry /\ curOut' = NoChunk
+    /\ UNCHANGED <<opts, hvars, zs, dvars, svars, nOut, ivars, cvars, history, mvars>>
 
 -----------------------------------------------------------------------------
 (* InPump = wrapInput / sendInput                                                            *)
 
 InRead(c) ==
     /\ pcIn = "read"
-    /\ pcIn' = "send" /\ curIn' = c /\ nIn' = nIn + 1
+    /\ pcIn' = "send" /\ curIn' = c
+    /\ nIn' = IF c.k = "pathex" /\ opts.drag THEN nIn ELSE nIn + 1
     /\ UNCHANGED <<opts, hvars, zs, dvars, svars, ovars, lastIn, cvars, history, mvars>>
 
-InEntry(img) == [id |-> curIn.id, k |-> curIn.k, img |-> img, idle |-> InSessionIdle, exp |-> Img(FALSE, "same", FALSE)]
+(* towards the server: unmodified; with drag detection a list of existing paths may be taken *)
+InEntry(img) == [id |-> curIn.id, img |-> img,
+                 ok |-> (InSessionIdle => \/ img = Img(FALSE, "same", FALSE)
+                                          \/ curIn.k = "pathex" /\ opts.drag /\ img = NoImg)]
 
 InSend ==
     /\ pcIn = "send"
@@ -219,54 +228,54 @@ InSend ==
        ELSE /\ lastIn' = InEntry(Img(FALSE, "same", FALSE))
             /\ dragging' = IF opts.drag THEN FALSE ELSE dragging    \* resetDragFiles
             /\ UNCHANGED <<prompt, zs, drag, nDrag>>
-    /\ UNCHANGED <<opts, transferPtr, hpc, hhow, stopReq, interrupting, skipCmd, svars, ovars,
+    /\ UNCHANGED <<opts, transferPtr, hpc, stopReq, interrupting, skipCmd, svars, ovars,
                    curIn, nIn, nTrig, nZ, history, mvars>>
 
 InLoop ==
     /\ pcIn = "done" /\ pcIn' = "read"
-    /\ UNCHANGED <<opts, hvars, zs, dvars, svars, ovars, curIn, nIn, lastIn, cvars, history, mvars>>
+    /\ lastIn' = NoEntry /\ curIn' = NoChunk
+    /\ UNCHANGED <<opts, hvars, zs, dvars, svars, ovars, nIn, cvars, history, mvars>>
 
 -----------------------------------------------------------------------------
 (* Handler = handleTrzsz and its worker goroutine                                            *)
 
 HRefuse ==       \* chooser cancelled: sendAction(false); the pointer is never set
     /\ hpc = "spawned"
-    /\ hpc' = "ending" /\ hhow' = "refused"
-    /\ UNCHANGED <<opts, transferPtr, stopReq, prompt, zs, dvars, svars, ovars, ivars, cvars, history, mvars>>
+    /\ hpc' = "ending" /\ history' = "refused"
+    /\ UNCHANGED <<opts, transferPtr, stopReq, prompt, zs, dvars, svars, ovars, ivars, cvars, mvars>>
 
 HChooseFail ==   \* chooser / path check fails before the pointer is set
     /\ hpc = "spawned"
-    /\ hpc' = "ending" /\ hhow' = "fail"
-    /\ UNCHANGED <<opts, transferPtr, stopReq, prompt, zs, dvars, svars, ovars, ivars, cvars, history, mvars>>
+    /\ hpc' = "ending" /\ history' = "fail"
+    /\ UNCHANGED <<opts, transferPtr, stopReq, prompt, zs, dvars, svars, ovars, ivars, cvars, mvars>>
 
 HCAS ==          \* filter.transfer.CompareAndSwap(nil, transfer); dragged files are taken over
     /\ hpc = "spawned" /\ transferPtr = NULL
     /\ transferPtr' = "t" /\ hpc' = "active"
     /\ dragging' \in (IF dragging THEN {TRUE, FALSE} ELSE {FALSE})
-    /\ UNCHANGED <<opts, hhow, stopReq, prompt, zs, drag, interrupting, skipCmd, svars, ovars, ivars, cvars, history, mvars>>
+    /\ UNCHANGED <<opts, stopReq, prompt, zs, drag, interrupting, skipCmd, svars, ovars, ivars, cvars, history, mvars>>
 
 HEnd(how) ==     \* uploadFiles / downloadFiles return (clientExit, clientError)
     /\ hpc = "active" /\ how \in {"success", "fail", "cancel"}
     /\ how = "cancel" => stopReq
-    /\ hpc' = "ending" /\ hhow' = how
-    /\ UNCHANGED <<opts, transferPtr, stopReq, prompt, zs, dvars, svars, ovars, ivars, cvars, history, mvars>>
+    /\ hpc' = "ending" /\ history' = how
+    /\ UNCHANGED <<opts, transferPtr, stopReq, prompt, zs, dvars, svars, ovars, ivars, cvars, mvars>>
 
 HExit ==         \* `defer filter.transfer.CompareAndSwap(transfer, nil)`; nothing of the session may outlive it
     /\ hpc = "ending"
     /\ transferPtr' = NULL /\ hpc' = "none" /\ stopReq' = FALSE /\ prompt' = "none"
-    /\ history' = Append(history, hhow) /\ hhow' = "none"
-    /\ UNCHANGED <<opts, zs, dvars, svars, ovars, ivars, cvars, mvars>>
+    /\ UNCHANGED <<opts, zs, dvars, svars, ovars, ivars, cvars, history, mvars>>
 
 StopAPI ==       \* filter.StopTransferringFiles
     /\ transferPtr # NULL /\ ~stopReq
     /\ stopReq' = TRUE
-    /\ UNCHANGED <<opts, transferPtr, hpc, hhow, prompt, zs, dvars, svars, ovars, ivars, cvars, history, mvars>>
+    /\ UNCHANGED <<opts, transferPtr, hpc, prompt, zs, dvars, svars, ovars, ivars, cvars, history, mvars>>
 
 PromptEnd ==     \* prompt.Run() returned: stop / resume, promptPipe.Store(nil)
     /\ prompt \in {"stop", "cont"}
     /\ prompt' = "none"
     /\ stopReq' = IF prompt = "stop" /\ transferPtr # NULL THEN TRUE ELSE stopReq
-    /\ UNCHANGED <<opts, transferPtr, hpc, hhow, zs, dvars, svars, ovars, ivars, cvars, history, mvars>>
+    /\ UNCHANGED <<opts, transferPtr, hpc, zs, dvars, svars, ovars, ivars, cvars, history, mvars>>
 
 -----------------------------------------------------------------------------
 (* ZSession                                                                                  *)
@@ -303,12 +312,14 @@ DragReset ==     \* 3 s later: resetDragFiles
 (* environment: the tty echo of the typed command *)
 EchoArrives ==
     /\ EchoAssumed /\ drag = "command" /\ skipCmd
-    /\ OutRead([k |-> "cmdlike", id |-> nOut + 1])
+    /\ childExit = NoExit /\ pcOut = "read"
+    /\ curOut' = [k |-> "cmdlike", id |-> 0] /\ pcOut' = "dispatch"     \* not counted against the budget
+    /\ UNCHANGED <<opts, hvars, zs, dvars, svars, nOut, lastOut, ivars, cvars, history, mvars>>
 
 -----------------------------------------------------------------------------
 (* Main = TrzszMain: `pty.Wait(); return pty.ExitCode()`                                     *)
 ChildExits(code) ==
-    /\ childExit = NoExit /\ FullyIdle /\ pcIn = "read"
+    /\ childExit = NoExit /\ FullyIdle /\ pcIn = "read" /\ pcOut = "read"
     /\ childExit' = code
     /\ UNCHANGED <<opts, hvars, zs, dvars, svars, ovars, ivars, cvars, history, wrapExit, lastWords>>
 
@@ -318,21 +329,23 @@ WrapperReturns ==   \* everything the child said has been forwarded, its status 
     /\ UNCHANGED <<opts, hvars, zs, dvars, svars, ovars, ivars, cvars, history, childExit, lastWords>>
 
 -----------------------------------------------------------------------------
+(* budgets: MaxOut / MaxIn probes, MaxXfer triggers, MaxZ zmodem headers, MaxDrag drops *)
 FeedOutOK(k) ==
-    /\ nOut < MaxOut /\ childExit = NoExit
-    /\ k = "trig" => (hpc = "none" /\ nTrig < MaxXfer)
-    /\ (k = "zmhdr" /\ opts.zmodem) => nZ < MaxZ
+    /\ childExit = NoExit
+    /\ IF k = "trig" THEN hpc = "none" /\ nTrig < MaxXfer
+       ELSE IF k = "zmhdr" /\ opts.zmodem THEN nZ < MaxZ
+       ELSE nOut < MaxOut
 FeedInOK(k) ==
-    /\ nIn < MaxIn /\ childExit = NoExit
-    /\ (k = "pathex" /\ opts.drag) => nDrag < MaxDrag
+    /\ childExit = NoExit
+    /\ IF k = "pathex" /\ opts.drag THEN nDrag < MaxDrag ELSE nIn < MaxIn
 
 Pumps == OutToTransfer \/ OutScan \/ OutForward \/ OutLoop \/ InSend \/ InLoop
 Handler == HRefuse \/ HChooseFail \/ HCAS \/ (\E how \in Hows : HEnd(how)) \/ HExit \/ PromptEnd
 Sessions == ZStop \/ ZCleanup \/ DragAbort \/ DragInterrupt \/ DragCommand \/ DragReset \/ EchoArrives
 
 Next ==
-    \/ \E k \in FeedOut : FeedOutOK(k) /\ OutRead([k |-> k, id |-> nOut + 1])
-    \/ \E k \in FeedIn : FeedInOK(k) /\ InRead([k |-> k, id |-> nIn + 1])
+    \/ \E k \in FeedOut : FeedOutOK(k) /\ OutRead([k |-> k, id |-> 0])
+    \/ \E k \in FeedIn : FeedInOK(k) /\ InRead([k |-> k, id |-> 0])
     \/ Pumps \/ Handler \/ StopAPI \/ Sessions
     \/ \E c \in ExitCodes : ChildExits(c)
     \/ WrapperReturns
@@ -353,18 +366,12 @@ TypeOK ==
     /\ zs # "none" => opts.zmodem
     /\ drag # "idle" => opts.drag
 
-(* While no session claims it, the chunk that comes out is the chunk fed: unmodified, once.  *)
-PassThroughOut == lastOut.idle => lastOut.img = lastOut.exp
+(* While no session claims it, the chunk that comes out is the chunk fed: unmodified, once,   *)
+(* in order (a pump finishes chunk i before it takes chunk i+1: the entry belongs to curOut). *)
+PassThroughOut == lastOut.ok /\ (pcOut = "done" => lastOut.id = curOut.id)
 
 (* Same towards the server; with drag detection a list of existing paths may be taken.       *)
-PassThroughIn ==
-    lastIn.idle => \/ lastIn.img = lastIn.exp
-                   \/ lastIn.k = "pathex" /\ opts.drag /\ lastIn.img = NoImg
-
-(* in order, exactly once: the pump finishes chunk i before it takes chunk i+1 *)
-InOrder == /\ lastOut.id \in {nOut, nOut - 1, 0} /\ lastIn.id \in {nIn, nIn - 1, 0}
-           /\ (pcOut \in {"done", "read"} /\ nOut > 0) => lastOut.id = nOut
-           /\ (pcIn \in {"done", "read"} /\ nIn > 0) => lastIn.id = nIn
+PassThroughIn == lastIn.ok /\ (pcIn = "done" => lastIn.id = curIn.id)
 
 PtrClearedOnEveryExit == hpc \in {"none", "spawned"} => transferPtr = NULL
 
@@ -375,7 +382,7 @@ PromptOnlyInTransfer == prompt # "none" => hpc # "none"
 ExitPassed == wrapExit # NoExit => wrapExit = childExit
 LastWordsDelivered == lastWords
 
-HistoryOK == Len(history) <= MaxXfer /\ \A i \in 1..Len(history) : history[i] \in Hows
+HistoryOK == history \in Hows \cup {"none"}
 
 (* under fairness of the pumps, the handler and the session timers the filter always comes back *)
 Live == []<>ModePass
